@@ -122,6 +122,12 @@ func (g *qGen) aggItem(cols []qCol) qE {
 	}
 	a := qAggs[g.r.Intn(len(qAggs))]
 	e := g.scalar(cols, 1)
+	for e.sql == "UNKNOWN" {
+		// COUNT(UNKNOWN) with the literal is 0 (a shortcut in evalAggregateFunction skips NULL and UNKNOWN literals)
+		// while COUNT(<expression that is UNKNOWN on every row>) counts the rows: an observation outside the
+		// property (DESIGN.md 15.5); the literal is not generated
+		e = g.scalar(cols, 1)
+	}
 	if g.r.Intn(4) == 0 {
 		return qE{a[0] + "(DISTINCT " + e.sql + ")", fmt.Sprintf("(SAgg %s true %s)", a[1], e.coq)}
 	}
